@@ -432,7 +432,7 @@ impl Prop for C02 {
     }
     fn cases(t: Tier) -> u64 {
         match t {
-            Tier::Quick => 6_000,
+            Tier::Quick => 24_000,
             Tier::Thorough => 200_000,
         }
     }
